@@ -188,7 +188,7 @@ fn case<B: Fld, E: FieldElement<BaseField = B>, H: ElementHasher<BaseField = B>>
     let last_domain = domain / c.fold.pow(layers as u32);
     let rem_size = last_domain / c.blowup;
     let (f, fkind) = far_function::<B, E>(rng, n, domain);
-    let strategy = ["honest-folding", "remainder-after-queries", "remainder-plus-vanishing", "tampered-layer-value", "wrong-alpha", "omitted-layer", "swapped-layers", "wrong-degree-claim", "oversized-remainder"][(i % 9) as usize];
+    let strategy = ["honest-folding", "remainder-after-queries", "remainder-plus-vanishing", "tampered-layer-value", "wrong-alpha", "omitted-layer", "swapped-layers", "wrong-degree-claim", "oversized-remainder", "claimed-evaluation-mismatch"][(i % 10) as usize];
     let desc = |extra: &str| {
         J::obj(vec![("config", J::s(tag)), ("strategy", J::s(strategy)), ("function", J::s(&fkind)), ("blowup", J::i(c.blowup)), ("folding", J::i(c.fold)), ("remainder_max_degree", J::i(c.rem)), ("degree_bound", J::i(n - 1)), ("domain", J::i(domain)), ("queries", J::i(c.queries)), ("layers", J::i(layers)), ("detail", J::s(extra))])
     };
@@ -288,6 +288,44 @@ fn case<B: Fld, E: FieldElement<BaseField = B>, H: ElementHasher<BaseField = B>>
             };
             verdict(st, "remainder substituted after the query positions were known", proof, inst.commitments, &f, &inst.positions, n - 1, None);
         },
+        "claimed-evaluation-mismatch" => {
+            // an honest proof (for the far function or for a genuine low-degree polynomial), but the
+            // evaluations handed to the verifier differ from the committed first layer at one or more
+            // queried positions; positions are chosen so that several of them fall into the same
+            // coset (row of the first layer), the altered one listed first, in the middle or last
+            let fvals = if rng.bool() { f.clone() } else { frih::evaluate::<B, E>(&rand_vec::<B, E>(rng, n), domain) };
+            let rows = domain / c.fold;
+            let mut pos: Vec<usize> = Vec::new();
+            let groups = rng.range(1, 8.min(rows));
+            for _ in 0..groups {
+                let r = rng.usize(rows);
+                let mut members: Vec<usize> = (0..c.fold).map(|k| r + k * rows).collect();
+                rng.shuffle(&mut members);
+                members.truncate(rng.range(2, c.fold).min(c.fold));
+                for m in members {
+                    if !pos.contains(&m) {
+                        pos.push(m);
+                    }
+                }
+            }
+            let inst = frih::prove::<B, E, H>(&mut prover, fvals.clone(), &opts, pos.len(), Some(pos.clone()));
+            let mut claimed = fvals.clone();
+            let which = match rng.below(4) {
+                0 => 0,
+                1 => pos.len() - 1,
+                2 => 1.min(pos.len() - 1),
+                _ => rng.usize(pos.len()),
+            };
+            claimed[pos[which]] += rand_nonzero::<B, E>(rng);
+            if rng.chance(1, 3) {
+                // every position but the first of the list
+                for &p in pos.iter().skip(1) {
+                    claimed[p] += E::ONE;
+                }
+            }
+            st.count(&format!("claimed_mismatch.altered_index_{}", if which == 0 { "first" } else if which == pos.len() - 1 { "last" } else { "middle" }));
+            verdict(st, "claimed evaluation differs from the committed first layer", inst.proof, inst.commitments, &claimed, &pos, n - 1, None);
+        },
         "tampered-layer-value" | "omitted-layer" | "swapped-layers" => {
             let inst = frih::prove::<B, E, H>(&mut prover, f.clone(), &opts, c.queries, None);
             let bytes = inst.proof.to_bytes();
@@ -350,6 +388,34 @@ fn case<B: Fld, E: FieldElement<BaseField = B>, H: ElementHasher<BaseField = B>>
             let pos = ch.inner.draw_query_positions(0);
             let proof = p2.build_proof(&pos);
             let comm = ch.inner.layer_commitments().to_vec();
+            // the strategy only deviates if alpha + 1 folds the broken layer differently from alpha
+            // (it does not when the coefficient slices 1..N-1 of that layer vanish, e.g. a constant)
+            let deviates = {
+                let mut coin = DefaultRandomCoin::<H>::new(&[]);
+                let mut cur = fvals.clone();
+                let mut differs = false;
+                let fold_with = |cur: &[E], a: E| match c.fold {
+                    2 => folding::apply_drp(&transpose_slice::<E, 2>(cur), B::GENERATOR, a),
+                    4 => folding::apply_drp(&transpose_slice::<E, 4>(cur), B::GENERATOR, a),
+                    8 => folding::apply_drp(&transpose_slice::<E, 8>(cur), B::GENERATOR, a),
+                    _ => folding::apply_drp(&transpose_slice::<E, 16>(cur), B::GENERATOR, a),
+                };
+                for (k, cm) in comm.iter().take(layers).enumerate() {
+                    coin.reseed(*cm);
+                    let alpha: E = coin.draw().unwrap();
+                    if k == ch.break_at {
+                        differs = fold_with(&cur, alpha) != fold_with(&cur, alpha + E::ONE);
+                        cur = fold_with(&cur, alpha + E::ONE);
+                    } else {
+                        cur = fold_with(&cur, alpha);
+                    }
+                }
+                differs
+            };
+            if !deviates {
+                st.count("skipped.wrong_alpha_folds_identically(not a deviation)");
+                return;
+            }
             verdict(st, "prover folded one layer with alpha + 1", proof, comm, &fvals, &pos, n - 1, None);
         },
     }
@@ -382,12 +448,12 @@ fn main() {
     drive::<B128, B128, Blake3_192<B128>>(&run, "f128/Blake3_192", n);
     drive::<B128, QuadExtension<B128>, Sha3_256<B128>>(&run, "f128^2/Sha3_256", n / 2);
     let mut require = Vec::new();
-    for s in ["honest-folding", "remainder-after-queries", "remainder-plus-vanishing", "tampered-layer-value", "wrong-alpha", "omitted-layer", "swapped-layers", "wrong-degree-claim", "oversized-remainder"] {
+    for s in ["honest-folding", "remainder-after-queries", "remainder-plus-vanishing", "tampered-layer-value", "wrong-alpha", "omitted-layer", "swapped-layers", "wrong-degree-claim", "oversized-remainder", "claimed-evaluation-mismatch"] {
         require.push((format!("rejected.{s}"), 20));
     }
     require.push(("oracle.recomputed_rejection_required".into(), 50));
     run.finish(Finish {
-        rule: "instances: blowup 2..32 x folding 2..16 x remainder max degree 0..31 x degree bounds 3..511, domain 16..4096, 100 queries (honest-folding acceptance probability <= max(1/blowup,3/4)^q <= 2^-40); functions: random, polynomial of degree bound+1, of degree in (bound+1..domain-1), of degree domain-1, low-degree corrupted on 1/4, 1/2, 3/4 of the domain; strategies (all commit honestly to each folded layer): honest folding, remainder interpolated through the queried points after seeing them, honest remainder + c*vanishing polynomial of the queried points, oversized remainder, one layer value tampered, folding with alpha+1 at one layer (also for genuine low-degree inputs), a layer omitted / two layers swapped (with and without the matching commitment edit), too small a degree claim for a genuine polynomial. Expected: rejected or unparsable; an acceptance under honest folding is tolerated only if an independent recomputation (last layer refolded with the coin's challenges, remainder evaluated at every final position) shows all queried positions consistent. distinct = distinct generated instance".into(),
+        rule: "instances: blowup 2..32 x folding 2..16 x remainder max degree 0..31 x degree bounds 3..511, domain 16..4096, 100 queries (honest-folding acceptance probability <= max(1/blowup,3/4)^q <= 2^-40); functions: random, polynomial of degree bound+1, of degree in (bound+1..domain-1), of degree domain-1, low-degree corrupted on 1/4, 1/2, 3/4 of the domain; strategies (all commit honestly to each folded layer): honest folding, remainder interpolated through the queried points after seeing them, honest remainder + c*vanishing polynomial of the queried points, oversized remainder, one layer value tampered, folding with alpha+1 at one layer (also for genuine low-degree inputs; cases in which alpha+1 folds identically are not deviations and are skipped), evaluations claimed to the verifier that differ from the committed first layer at queried positions sharing a coset with other queried positions (altered one first / middle / last in the list), a layer omitted / two layers swapped (with and without the matching commitment edit), too small a degree claim for a genuine polynomial. Expected: rejected or unparsable; an acceptance under honest folding is tolerated only if an independent recomputation (last layer refolded with the coin's challenges, remainder evaluated at every final position) shows all queried positions consistent. distinct = distinct generated instance".into(),
         assumptions: vec![
             "finite strategy library: a clean run means none of these strategies was accepted, not soundness".into(),
             "evaluations of test polynomials use the library FFT (C09); refolding uses apply_drp (C15)".into(),
